@@ -94,11 +94,13 @@ package runner
 //@   ensures #C06.last result#1 == nil && ccN > old(ccN) ==> ccJob[ccN-1].Next == nil && ccC[ccN-1] == len(t.Commands) - 1 && ccV[ccN-1] == (t.Variations == nil ? 0 : len(t.Variations) - 1)
 //@   ensures #C06.commands result#1 == nil ==> (forall i int :: old(ccN) <= i && i < ccN ==> 0 <= ccC[i] && ccC[i] < len(t.Commands) && ccCmd[i] == t.Commands[ccC[i]])
 //@   loop 1 "range vars.Map()"
-//@     invariant #same tc == tc0 && t == t0 && executionContext == executionContext0 && env == env0 && vars != nil && tc != nil && tc.variables != nil && t != nil && env != nil && executionContext != nil && compiledClosed()
+//@     invariant #same tc == tc0 && t == t0 && executionContext == executionContext0 && vars != nil && tc != nil && tc.variables != nil && t != nil && env != nil && executionContext != nil && compiledClosed()
 //@     invariant #nothing-yet ccN == old(ccN) && job == nil && prev == nil
+//@     invariant #C09.env-param-unchanged env == env0
 //@   loop 2 "range t.GetVariations()"
-//@     invariant #same tc == tc0 && t == t0 && executionContext == executionContext0 && env == env0 && vars != nil && tc != nil && tc.variables != nil && t != nil && env != nil && executionContext != nil && compiledClosed()
+//@     invariant #same tc == tc0 && t == t0 && executionContext == executionContext0 && vars != nil && tc != nil && tc.variables != nil && t != nil && env != nil && executionContext != nil && compiledClosed()
 //@     invariant #count ccN >= old(ccN)
+//@     invariant #C09.env-param-unchanged env == env0
 //@     invariant #list (ccN == old(ccN) ==> job == nil && prev == nil) && (ccN > old(ccN) ==> job == ccJob[old(ccN)] && prev == ccJob[ccN-1] && prev != nil && prev.Next == nil)
 //@     invariant #jobs forall i int :: old(ccN) <= i && i < ccN ==> allocated(ccJob[i]) && compiled[ccJob[i]] && 0 <= ccC[i] && ccC[i] < len(t.Commands) && ccCmd[i] == t.Commands[ccC[i]] && 0 <= ccV[i] && ccV[i] <= rangeindex
 //@     invariant #links forall i int :: old(ccN) <= i && i + 1 < ccN ==> ccJob[i].Next == ccJob[i+1] && (ccC[i] + 1 < len(t.Commands) ==> ccV[i+1] == ccV[i] && ccC[i+1] == ccC[i] + 1) && (ccC[i] + 1 >= len(t.Commands) ==> ccV[i+1] == ccV[i] + 1 && ccC[i+1] == 0)
@@ -107,8 +109,9 @@ package runner
 //@     invariant #no-commands len(t.Commands) == 0 ==> ccN == old(ccN)
 //@     invariant #started ccN == old(ccN) ==> rangeindex == -1 || len(t.Commands) == 0
 //@   loop 3 "range t.Commands"
-//@     invariant #same tc == tc0 && t == t0 && executionContext == executionContext0 && env == env0 && vars != nil && tc != nil && tc.variables != nil && t != nil && env != nil && executionContext != nil && compiledClosed()
+//@     invariant #same tc == tc0 && t == t0 && executionContext == executionContext0 && vars != nil && tc != nil && tc.variables != nil && t != nil && env != nil && executionContext != nil && compiledClosed()
 //@     invariant #count ccN >= old(ccN) && rangeindex#1 >= 0
+//@     invariant #C09.env-param-unchanged env == env0
 //@     invariant #list (ccN == old(ccN) ==> job == nil && prev == nil) && (ccN > old(ccN) ==> job == ccJob[old(ccN)] && prev == ccJob[ccN-1] && prev != nil && prev.Next == nil)
 //@     invariant #jobs forall i int :: old(ccN) <= i && i < ccN ==> allocated(ccJob[i]) && compiled[ccJob[i]] && 0 <= ccC[i] && ccC[i] < len(t.Commands) && ccCmd[i] == t.Commands[ccC[i]] && 0 <= ccV[i] && ccV[i] <= rangeindex#1
 //@     invariant #links forall i int :: old(ccN) <= i && i + 1 < ccN ==> ccJob[i].Next == ccJob[i+1] && (ccC[i] + 1 < len(t.Commands) ==> ccV[i+1] == ccV[i] && ccC[i+1] == ccC[i] + 1) && (ccC[i] + 1 >= len(t.Commands) ==> ccV[i+1] == ccV[i] + 1 && ccC[i+1] == 0)
